@@ -290,11 +290,6 @@ def classify(atoms, proj, params, graph, g, mode):
     """Finding key: the scalar piece responsible (the keys of the single-entity search), or the collection-specific ones."""
     import c01_harness as H
     if mode == 'project': return H.classify(proj, g_row(g), params, 'project')
-    for x in atoms:
-        if x[0] == 'notin' and x[3] == 'gen':
-            try: sel = selected(graph, g, x[4], params)
-            except Skip: sel = []
-            if any(m[x[2]] is None for m in sel): return 'not-over-in-collection-lacks-null-check'
     pieces = []
     for x in atoms:
         k = x[0]
